@@ -164,7 +164,11 @@ impl FsCommand {
     }
 
     fn hardlink(target: &Path, link: &Path) -> io::Result<()> {
-        fs::hard_link(target.to_path_buf(), link.to_path_buf()).map_err(|e| {
+        // The retained path can be a symbolic link (`group --symbolic-links`). Link to the file
+        // it points to: a hard link to a relative symbolic link would dangle in another directory.
+        let result = fs::canonicalize(target.to_path_buf())
+            .and_then(|target_file| fs::hard_link(target_file, link.to_path_buf()));
+        result.map_err(|e| {
             io::Error::new(
                 e.kind(),
                 format!(
@@ -393,7 +397,7 @@ impl FsCommand {
                 let target = target.path.quote();
                 let link = link.path.quote();
                 result.push(format!("mv {} {}", link, tmp.quote()));
-                result.push(format!("ln {target} {link}"));
+                result.push(format!("ln -L {target} {link}"));
                 result.push(format!("rm {}", tmp.quote()));
             }
             FsCommand::RefLink { target, link, .. } => {
